@@ -15,6 +15,7 @@ import WpModel.Model.KeywordsC07
 import WpModel.Model.DescriptorsC07
 import WpModel.Model.NumericC07
 import WpModel.Model.TracksC07
+import WpModel.Model.GradientC07
 
 namespace Wp.Drive.C07
 open Wp Wp.Decl
@@ -370,6 +371,46 @@ partial def trackSx : Tracks07.Track → Sx
   | .rep n ts => .list [.atom "rep", .atom (encodeAtom n), .list (ts.map trackSx)]
   | .other t => .list [.atom "other", .atom (encodeAtom t)]
 
+/-! ### gradient images -/
+
+def gdim? : Sx → Option Grad07.Dim
+  | .list [.atom "d", v, .atom "none"] => v.rat?.map (·, none)
+  | .list [.atom "d", v, u] => do pure ((← v.rat?), some (← str? u))
+  | _ => none
+
+def gstop? : Sx → Option (Option Grad07.Dim)
+  | .atom "none" => some none
+  | x => (gdim? x).map some
+
+def gimage? : Sx → Option Grad07.Image
+  | .list [.atom "other", k] => (str? k).map .other
+  | .list [.atom "linear", .list stops] => do
+    pure (.linear { stops := ← allSome gstop? stops, center := none, explicitSize := none })
+  | .list [.atom "radial", .list stops, c, sz] => do
+    let center : Option (Grad07.Dim × Grad07.Dim) ← (match c with
+      | .atom "none" => some none
+      | .list [a, b] => do pure (some ((← gdim? a), (← gdim? b)))
+      | _ => none)
+    let size : Option (List Grad07.Dim) ← (match sz with
+      | .atom "none" => some none
+      | .list ds => (allSome gdim? ds).map some
+      | _ => none)
+    pure (.radial { stops := ← allSome gstop? stops, center := center, explicitSize := size })
+  | _ => none
+
+def gdimSx (d : Grad07.Dim) : Sx := .list [.atom "d", .atom (showRat d.1), .atom (showUnit d.2)]
+
+def gstopSx : Option Grad07.Dim → Sx
+  | none => .atom "none"
+  | some d => gdimSx d
+
+def gimageSx : Grad07.Image → Sx
+  | .other k => .list [.atom "other", .atom (encodeAtom k)]
+  | .linear g => .list [.atom "linear", .list (g.stops.map gstopSx)]
+  | .radial g => .list [.atom "radial", .list (g.stops.map gstopSx),
+      (match g.center with | none => .atom "none" | some c => .list [gdimSx c.1, gdimSx c.2]),
+      (match g.explicitSize with | none => .atom "none" | some l => .list (l.map gdimSx))]
+
 /-! ### the handler -/
 
 def handle (cmd : String) (args : List Sx) : Option String :=
@@ -514,6 +555,11 @@ def handle (cmd : String) (args : List Sx) : Option String :=
     let ctx : Len07.FontCtx := { fontSize := ← fs.rat?, rootFontSize := ← rfs.rat?, exRatio := ← ex.rat?,
                                  chRatio := ← ch.rat? }
     pure (Sx.list ((Tracks07.gridAuto ctx (← allSome track? ts)).map trackSx)).render
+  | "image-computer", [fs, rfs, ex, ch, name, .list images] => do
+    let ctx : Len07.FontCtx := { fontSize := ← fs.rat?, rootFontSize := ← rfs.rat?, exRatio := ← ex.rat?,
+                                 chRatio := ← ch.rat? }
+    let out := Grad07.computeProperty ctx (← str? name) (← allSome gimage? images)
+    pure (Sx.list (out.map gimageSx)).render
   | "length-list", [name, .list toks] => do
     let showPair (p : Len07.Spec × Len07.Spec) : String := showSpec (some p.1) ++ " | " ++ showSpec (some p.2)
     pure (match Num07.validateLengthList (← str? name) (← allSome ltok? toks) with
